@@ -289,7 +289,9 @@ func mkRow(cls []int, cells []string) crow {
 	return r
 }
 
-func sortRows(rows []crow) { sort.SliceStable(rows, func(i, j int) bool { return crowLess(rows[i], rows[j]) }) }
+func sortRows(rows []crow) {
+	sort.SliceStable(rows, func(i, j int) bool { return crowLess(rows[i], rows[j]) })
+}
 
 func colClass(c *colSpec) int {
 	switch c.Kind {
